@@ -387,6 +387,12 @@ class BufferedFile(ClosingContextManager):
             raise IOError("File is closed")
         if not (self._flags & self.FLAG_WRITE):
             raise IOError("File not open for writing")
+        if self._rbuffer and self.seekable():
+            # reads may have pulled in more than they returned; on a random
+            # access file the write belongs at the logical position, not
+            # after that read-ahead (streams keep what they have buffered)
+            self._rbuffer = bytes()
+            self._realpos = self._pos
         if not (self._flags & self.FLAG_BUFFERED):
             self._write_all(data)
             return
